@@ -1213,7 +1213,8 @@ class Interp:
         except SimHang as e:
             self.fail('C01', 'hang', f'query: {e}')
         except Exception as e:
-            owner = ('C01', 'C05') if 'deferred' in self.flags else ('C01',)
+            owner = ('C01', 'C05', 'C06') if 'deferred' in self.flags else (
+                'C01', 'C06')
             self.fail(owner, 'op_raised', f'query raised '
                       f'{type(e).__name__}: {e}')
         self.trace.add('state', kernel.h64(
@@ -1316,6 +1317,32 @@ class Interp:
                           f'has_component({eid!r}) = {has}, get_component '
                           f'finds one = {found}, listed by get() = '
                           f'{repr(eid) in listed}')
+        # the root of every hierarchy as a query type
+        self.nsweeps = getattr(self, 'nsweeps', 0) + 1
+        if self.cfg.get('query_object') and self.nsweeps % 5 == 1:
+            # (walks every class of the interpreter: now and then only)
+            want_all = Counter((repr(eid), f'c{i}')
+                               for eid, row in self.ents.items()
+                               for i in row.values())
+            got_all = Counter((repr(e), getattr(c, '_label', '?'))
+                              for e, c in w.get(object))
+            if got_all != want_all:
+                self.fail(('C01', 'C06'), 'get_mismatch', f'get(object) = '
+                          f'{sorted(got_all.elements())}, expected every '
+                          f'attached component {sorted(want_all.elements())}')
+            for eid in ids:
+                row = self.ents.get(eid, {})
+                if bool(w.has_component(eid, object)) != bool(row):
+                    self.fail(('C01', 'C06'), 'has_component_mismatch',
+                              f'has_component({eid!r}, object) disagrees '
+                              f'with the {len(row)} attached component(s)')
+                g = w.get_component(eid, object)
+                if (g is None) != (not row) or (
+                        g is not None and getattr(g, '_label', None)
+                        not in {f'c{i}' for i in row.values()}):
+                    self.fail(('C01', 'C06'), 'get_component_mismatch',
+                              f'get_component({eid!r}, object) = {g!r}')
+            self.probes['queried_by_object'] += 1
         got = sorted(map(repr, w.entities))
         want = sorted(repr(e) for e in self.ents if e not in self.dead)
         if got != want:
@@ -1557,6 +1584,7 @@ def gen_config(prop, rng):
         faults = []
     return {'peq': prop == 'C07' and rng.random() < .25, 'many_procs': many,
             'peek': rng.random() < .4,
+            'query_object': prop in ('C01', 'C06') and rng.random() < .04,
             'idgen': (rng.choice([2, 3, 4, 6])
                       if prop in ('C01', 'C05') and rng.random() < .12
                       else None),
